@@ -3,9 +3,9 @@ C09 — "a command re-runs exactly when its definition changed", SIGNATURE HALF,
 `getSignature` recipe the extractor regenerates (LLBuild/Generated/SignatureRecipe.lean):
 
     Command (inherited by StaleFileRemovalCommand, SwiftGetVersionCommand)
-    ExternalCommand (inherited unchanged by PhonyCommand, MkdirCommand, ArchiveShellCommand,
-                     SharedLibraryShellCommand — `Generated.toolSignatureClass` says which tool uses which recipe)
-    ShellCommand, ClangShellCommand, SwiftCompilerShellCommand, SymlinkCommand, BuildNode
+    ExternalCommand (inherited unchanged by PhonyCommand, MkdirCommand, ArchiveShellCommand —
+                     `Generated.tools` says which tool uses which recipe)
+    ShellCommand, ClangShellCommand, SwiftCompilerShellCommand, SharedLibraryShellCommand, SymlinkCommand, BuildNode
 
 For each class: the pre-hash signature terms of two definitions are equal IF AND ONLY IF their
 signature-relevant parts are equal; the signature-relevant part of a class is, by definition, the members
@@ -29,12 +29,12 @@ def sigOf (c : Cls) (d : CommandDef) : Option HashTerm := sigTerm recipeOf d fue
 
 /-- **shell tool** — equal signature terms ⇔ equal (name, inputs, outputs, allow-missing-inputs,
 allow-modified-outputs, always-out-of-date, explicit signature | args, env, deps, deps-style, inherit-env,
-can-safely-interrupt). -/
+can-safely-interrupt, working-directory, control-enabled). -/
 theorem C09_sig_iff_shell (d₁ d₂ : CommandDef) :
     sigOf .shellCommand d₁ = sigOf .shellCommand d₂ ↔ relevant d₁ = relevant d₂ :=
   ⟨C09_sig_injective d₁ d₂, fun h => (C09_sig_pure d₁ d₂ h).1⟩
 
-/-- **phony, mkdir, archive, shared-library tools** (`ExternalCommand::getSignature` unchanged) — equal
+/-- **phony, mkdir, archive tools** (`ExternalCommand::getSignature` unchanged) — equal
 signature terms ⇔ equal (name, inputs, outputs, allow-missing-inputs, allow-modified-outputs, always-out-of-date). -/
 theorem C09_sig_iff_external (d₁ d₂ : CommandDef) :
     sigOf .externalCommand d₁ = sigOf .externalCommand d₂ ↔ relevantExternal d₁ = relevantExternal d₂ := by
@@ -66,9 +66,11 @@ structure RelevantClang where
   /-- name, inputs, outputs, allow-missing-inputs, allow-modified-outputs, always-out-of-date -/
   ext : Bytes × List Bytes × List Bytes × Bool × Bool × Bool
   args : List Bytes
+  /-- path of the dependency file (`deps`) -/
+  deps : Bytes
   deriving DecidableEq, Repr
 
-def relevantClang (d : CommandDef) : RelevantClang := { ext := relevantExternal d, args := d.args }
+def relevantClang (d : CommandDef) : RelevantClang := { ext := relevantExternal d, args := d.args, deps := d.depsPath }
 
 theorem ext_of_relevant {d₁ d₂ : CommandDef} (h : relevantExternal d₁ = relevantExternal d₂) :
     d₁.name = d₂.name ∧ extLeaves d₁ = extLeaves d₂ := by
@@ -89,8 +91,7 @@ theorem ext_split {d₁ d₂ : CommandDef} {r₁ r₂ : List HashTerm}
   obtain ⟨h1, h2, h3, hl⟩ := hl
   exact ⟨by simp [relevantExternal, hname, hin, hout, h1, h2, h3], hl⟩
 
-/-- **clang tool** — equal signature terms ⇔ equal (name, inputs, outputs, three flags, args).
-The `deps` attribute (path of the dependency file that is read after the compiler ran) is NOT hashed. -/
+/-- **clang tool** — equal signature terms ⇔ equal (name, inputs, outputs, three flags, args, deps path). -/
 theorem C09_sig_iff_clang (d₁ d₂ : CommandDef) :
     sigOf .clangShellCommand d₁ = sigOf .clangShellCommand d₂ ↔ relevantClang d₁ = relevantClang d₂ := by
   simp only [sigOf, fuel, clang_closed, Option.some.injEq]
@@ -98,12 +99,13 @@ theorem C09_sig_iff_clang (d₁ d₂ : CommandDef) :
   · intro h
     obtain ⟨he, hl⟩ := ext_split h
     simp only [clangLeaves] at hl
-    have := prefixed_inj (r₁ := []) (r₂ := []) (by simpa using hl)
-    simp [relevantClang, he, this.1]
+    obtain ⟨ha, hl⟩ := prefixed_inj hl
+    obtain ⟨hd, _⟩ := str_cons_inj hl
+    simp [relevantClang, he, ha, hd]
   · intro h
     simp only [relevantClang, RelevantClang.mk.injEq] at h
     obtain ⟨hn, he⟩ := ext_of_relevant h.1
-    rw [hn, he, clangLeaves, clangLeaves, h.2]
+    rw [hn, he, clangLeaves, clangLeaves, h.2.1, h.2.2]
 
 /-! ## SwiftCompilerShellCommand (swift-compiler tool) -/
 
@@ -119,18 +121,20 @@ structure RelevantSwift where
   tempsPath : Bytes
   otherArgs : List Bytes
   isLibrary : Bool
+  enableWholeModuleOptimization : Bool
+  numThreads : Bytes
   deriving DecidableEq, Repr
 
 def relevantSwift (d : CommandDef) : RelevantSwift :=
   { ext := relevantExternal d, executable := d.executable, moduleName := d.moduleName,
     moduleAliases := d.moduleAliases, moduleOutputPath := d.moduleOutputPath, sources := d.sourcesList,
     objects := d.objectsList, importPaths := d.importPaths, tempsPath := d.tempsPath,
-    otherArgs := d.otherArgs, isLibrary := d.isLibrary }
+    otherArgs := d.otherArgs, isLibrary := d.isLibrary,
+    enableWholeModuleOptimization := d.enableWholeModuleOptimization, numThreads := d.numThreads }
 
 /-- **swift-compiler tool** — equal signature terms ⇔ equal (name, inputs, outputs, three flags, executable,
 module-name, module-aliases, module-output-path, sources, objects, import-paths, temps-path, other-args,
-is-library).  `enable-whole-module-optimization` and `num-threads` are NOT hashed although they change
-the compiler command line. -/
+is-library, enable-whole-module-optimization, num-threads). -/
 theorem C09_sig_iff_swift (d₁ d₂ : CommandDef) :
     sigOf .swiftCompilerShellCommand d₁ = sigOf .swiftCompilerShellCommand d₂ ↔ relevantSwift d₁ = relevantSwift d₂ := by
   simp only [sigOf, fuel, swift_closed, Option.some.injEq]
@@ -147,14 +151,48 @@ theorem C09_sig_iff_swift (d₁ d₂ : CommandDef) :
     obtain ⟨himp, hl⟩ := prefixed_inj hl
     obtain ⟨htmp, hl⟩ := str_cons_inj hl
     obtain ⟨hoth, hl⟩ := prefixed_inj hl
-    simp only [List.cons.injEq, HashTerm.bool.injEq, and_true] at hl
-    simp [relevantSwift, he, hexe, hmod, hali, hmop, hsrc, hobj, himp, htmp, hoth, hl]
+    simp only [List.cons.injEq, HashTerm.bool.injEq, HashTerm.str.injEq, and_true] at hl
+    obtain ⟨hlib, hwmo, hnt⟩ := hl
+    simp [relevantSwift, he, hexe, hmod, hali, hmop, hsrc, hobj, himp, htmp, hoth, hlib, hwmo, hnt]
   · intro h
     simp only [relevantSwift, RelevantSwift.mk.injEq] at h
-    obtain ⟨he, h1, h2, h3, h4, h5, h6, h7, h8, h9, h10⟩ := h
+    obtain ⟨he, h1, h2, h3, h4, h5, h6, h7, h8, h9, h10, h11, h12⟩ := h
     obtain ⟨hn, he⟩ := ext_of_relevant he
     rw [hn, he]
-    simp only [swiftLeaves, h1, h2, h3, h4, h5, h6, h7, h8, h9, h10]
+    simp only [swiftLeaves, h1, h2, h3, h4, h5, h6, h7, h8, h9, h10, h11, h12]
+
+/-! ## SharedLibraryShellCommand (shared-library tool) -/
+
+structure RelevantSharedLib where
+  ext : Bytes × List Bytes × List Bytes × Bool × Bool × Bool
+  executable : Bytes
+  compilerStyle : Bytes
+  otherArgs : List Bytes
+  deriving DecidableEq, Repr
+
+def relevantSharedLib (d : CommandDef) : RelevantSharedLib :=
+  { ext := relevantExternal d, executable := d.executable, compilerStyle := d.compilerStyle, otherArgs := d.otherArgs }
+
+/-- **shared-library tool** — equal signature terms ⇔ equal (name, inputs, outputs, three flags, executable,
+compiler-style, other-args).  (The three flags cannot be configured for this tool — `C09_signed_attributes_configurable`
+— so they are always hashed at their defaults.) -/
+theorem C09_sig_iff_sharedLibrary (d₁ d₂ : CommandDef) :
+    sigOf .sharedLibraryShellCommand d₁ = sigOf .sharedLibraryShellCommand d₂ ↔ relevantSharedLib d₁ = relevantSharedLib d₂ := by
+  simp only [sigOf, fuel, sharedLib_closed, Option.some.injEq]
+  constructor
+  · intro h
+    obtain ⟨he, hl⟩ := ext_split h
+    simp only [sharedLibLeaves] at hl
+    obtain ⟨hexe, hl⟩ := str_cons_inj hl
+    obtain ⟨hcs, hl⟩ := str_cons_inj hl
+    have := prefixed_inj (r₁ := []) (r₂ := []) (by simpa using hl)
+    simp [relevantSharedLib, he, hexe, hcs, this.1]
+  · intro h
+    simp only [relevantSharedLib, RelevantSharedLib.mk.injEq] at h
+    obtain ⟨he, h1, h2, h3⟩ := h
+    obtain ⟨hn, he⟩ := ext_of_relevant he
+    rw [hn, he]
+    simp only [sharedLibLeaves, h1, h2, h3]
 
 /-! ## SymlinkCommand (symlink tool) -/
 
@@ -231,6 +269,7 @@ inductive RelevantAny
   | clang (r : RelevantClang)
   | swift (r : RelevantSwift)
   | symlink (r : RelevantSymlink)
+  | sharedLib (r : RelevantSharedLib)
   deriving DecidableEq, Repr
 
 def relevantOf : Cls → CommandDef → RelevantAny
@@ -241,6 +280,7 @@ def relevantOf : Cls → CommandDef → RelevantAny
   | .clangShellCommand, d => .clang (relevantClang d)
   | .swiftCompilerShellCommand, d => .swift (relevantSwift d)
   | .symlinkCommand, d => .symlink (relevantSymlink d)
+  | .sharedLibraryShellCommand, d => .sharedLib (relevantSharedLib d)
 
 /-- what the loader guarantees about a definition of class `c` (only SymlinkCommand has a constraint the
 recipe depends on) -/
@@ -258,7 +298,7 @@ theorem C09_sig_iff_all_classes (c : Cls) (d₁ d₂ : CommandDef) (w₁ : Loada
     sigOf c d₁ = sigOf c d₂ ↔ relevantOf c d₁ = relevantOf c d₂ := by
   cases c <;> simp only [relevantOf, RelevantAny.command.injEq, RelevantAny.external.injEq,
     RelevantAny.shell.injEq, RelevantAny.node.injEq, RelevantAny.clang.injEq, RelevantAny.swift.injEq,
-    RelevantAny.symlink.injEq]
+    RelevantAny.symlink.injEq, RelevantAny.sharedLib.injEq]
   · exact C09_sig_iff_command d₁ d₂
   · exact C09_sig_iff_external d₁ d₂
   · exact C09_sig_iff_shell d₁ d₂
@@ -266,6 +306,7 @@ theorem C09_sig_iff_all_classes (c : Cls) (d₁ d₂ : CommandDef) (w₁ : Loada
   · exact C09_sig_iff_clang d₁ d₂
   · exact C09_sig_iff_swift d₁ d₂
   · exact C09_sig_iff_symlink d₁ d₂ w₁ w₂
+  · exact C09_sig_iff_sharedLibrary d₁ d₂
 
 /-- Every class has a recipe, and every loadable definition has a signature term (the interpreter never
 fails on the generated recipes): the equivalence above is never about `none = none`. -/
@@ -280,6 +321,7 @@ theorem C09_sig_defined_all_classes (c : Cls) (d : CommandDef) (w : Loadable c d
   · simp [sigOf, fuel, swift_closed, recipeOf]
   · obtain ⟨o, e⟩ := List.length_eq_one_iff.1 w
     simp [sigOf, fuel, symlink_closed _ _ _ _ e, recipeOf]
+  · simp [sigOf, fuel, sharedLib_closed, recipeOf]
 
 /-- "an unchanged definition has the same signature in every process", every class: the 64-bit value the
 model computes (fixed seed, 0 ↦ 1 where the recipe says so) is a function of the relevant part alone. -/
@@ -309,7 +351,7 @@ theorem C09_tool_classes :
     tools.map (fun t => (t.1, t.2.2)) =
       [("shell", .shellCommand), ("phony", .externalCommand), ("clang", .clangShellCommand),
        ("mkdir", .externalCommand), ("symlink", .symlinkCommand), ("archive", .externalCommand),
-       ("shared-library", .externalCommand), ("stale-file-removal", .command),
+       ("shared-library", .sharedLibraryShellCommand), ("stale-file-removal", .command),
        ("swift-compiler", .swiftCompilerShellCommand)] := by decide
 
 /-- **C09_sig_iff_every_tool** — for every built-in tool: two loadable definitions of one of its commands
@@ -330,10 +372,13 @@ code itself; it is exercised by the correspondence (every definition goes throug
 def signedAttributes : Cls → List String
   | .command => []
   | .externalCommand => externalSigned
-  | .shellCommand => externalSigned ++ ["args", "env", "deps", "deps-style", "inherit-env", "can-safely-interrupt", "signature"]
-  | .clangShellCommand => externalSigned ++ ["args"]
+  | .shellCommand => externalSigned ++ ["args", "env", "deps", "deps-style", "inherit-env", "can-safely-interrupt", "signature",
+      "working-directory", "control-enabled"]
+  | .clangShellCommand => externalSigned ++ ["args", "deps"]
   | .swiftCompilerShellCommand => externalSigned ++ ["executable", "module-name", "module-aliases", "module-output-path",
-      "sources", "objects", "import-paths", "temps-path", "other-args", "is-library"]
+      "sources", "objects", "import-paths", "temps-path", "other-args", "is-library", "enable-whole-module-optimization",
+      "num-threads"]
+  | .sharedLibraryShellCommand => externalSigned ++ ["executable", "compiler-style", "other-args"]
   | .symlinkCommand => ["contents"]
   | .buildNode => ["type", "is-directory", "is-directory-structure", "is-virtual", "is-command-timestamp"]
 
@@ -344,22 +389,22 @@ def unsignedAttributes : List (String × List String) :=
 /-- **C09_unsigned_attributes** — the configurable attributes of each tool that do NOT enter its signature,
 computed from the attribute names the extractor reads out of the `configureAttribute` bodies: exactly these.
 (A new attribute in the source, or one that starts/stops being hashed, changes this list and fails the proof.)
-Of these, `working-directory`, `control-enabled` (shell), `deps` (clang), `executable` / `other-args` /
-`compiler-style` (shared-library) and `enable-whole-module-optimization` / `num-threads` (swift-compiler)
-change what the command does: editing only such an attribute does not re-run the command — confirmed on the
-real tool (notes/C09.md).  `link-output-path` is covered by `isResultValid`; stale-file-removal always runs;
-`repair-via-ownership-analysis` only changes graph analysis at load time. -/
+None of them changes what the command does: `link-output-path` is covered by `isResultValid` (which stats
+the actual link path); stale-file-removal declares every prior result invalid and runs in every build;
+`repair-via-ownership-analysis` only changes graph analysis at load time.  (Before fixes F49–F52 the list also
+held shell `working-directory` / `control-enabled`, clang `deps`, shared-library `executable` / `other-args` /
+`compiler-style` and swift-compiler `enable-whole-module-optimization` / `num-threads`.) -/
 theorem C09_unsigned_attributes :
     unsignedAttributes =
-      [("shell", ["working-directory", "control-enabled", "repair-via-ownership-analysis"]),
+      [("shell", ["repair-via-ownership-analysis"]),
        ("phony", ["repair-via-ownership-analysis"]),
-       ("clang", ["deps", "repair-via-ownership-analysis"]),
+       ("clang", ["repair-via-ownership-analysis"]),
        ("mkdir", ["repair-via-ownership-analysis"]),
        ("symlink", ["link-output-path", "repair-via-ownership-analysis"]),
        ("archive", ["repair-via-ownership-analysis"]),
-       ("shared-library", ["executable", "other-args", "compiler-style"]),
+       ("shared-library", []),
        ("stale-file-removal", ["expectedOutputs", "roots"]),
-       ("swift-compiler", ["enable-whole-module-optimization", "num-threads", "repair-via-ownership-analysis"])] := by
+       ("swift-compiler", ["repair-via-ownership-analysis"])] := by
   decide
 
 /-- Conversely: every hashed attribute is configurable, except that shared-library's scalar overload does not
@@ -399,5 +444,20 @@ example : sigOf .buildNode { cbase with producers := [[67]] } ≠ sigOf .buildNo
 example : relevantOf .clangShellCommand cbase = relevantOf .clangShellCommand { cbase with env := [([1], [2])], contents := [] } := by decide
 example : sigOf .symlinkCommand cbase = sigOf .symlinkCommand { cbase with name := [1, 2, 3], alwaysOutOfDate := true } := by decide
 example : sigOf .symlinkCommand { cbase with outputs := [] } = none := by decide
+-- F49–F52: the formerly unhashed attributes now separate the terms
+example : sigOf .shellCommand { cbase with workingDirectory := [47, 97] } ≠ sigOf .shellCommand { cbase with workingDirectory := [47, 98] } := by decide
+example : sigOf .shellCommand { cbase with controlEnabled := true } ≠ sigOf .shellCommand { cbase with controlEnabled := false } := by decide
+-- … but not under an explicit signature, which replaces the built-in strategy
+example : sigOf .shellCommand { cbase with signatureData := [115], workingDirectory := [47, 97] } =
+          sigOf .shellCommand { cbase with signatureData := [115], workingDirectory := [47, 98] } := by decide
+example : sigOf .clangShellCommand { cbase with depsPath := [97] } ≠ sigOf .clangShellCommand { cbase with depsPath := [98] } := by decide
+example : sigOf .clangShellCommand { cbase with args := [[99], [100]], depsPath := [] } ≠
+          sigOf .clangShellCommand { cbase with args := [[99]], depsPath := [100] } := by decide
+example : sigOf .sharedLibraryShellCommand { cbase with compilerStyle := [99, 108] } ≠
+          sigOf .sharedLibraryShellCommand { cbase with compilerStyle := [99, 108, 97, 110, 103] } := by decide
+example : sigOf .sharedLibraryShellCommand { cbase with compilerStyle := [], otherArgs := [[120]] } ≠
+          sigOf .sharedLibraryShellCommand { cbase with compilerStyle := [120], otherArgs := [] } := by decide
+example : sigOf .swiftCompilerShellCommand { cbase with enableWholeModuleOptimization := true } ≠ sigOf .swiftCompilerShellCommand cbase := by decide
+example : sigOf .swiftCompilerShellCommand { cbase with numThreads := [52] } ≠ sigOf .swiftCompilerShellCommand cbase := by decide
 
 end LLBuild.Signature
